@@ -8,6 +8,7 @@ import SeqVerif.Proofs.C03C02
 import SeqVerif.Proofs.C03FetchProofs
 import SeqVerif.Proofs.C03GroupProofs
 import SeqVerif.Proofs.C03TokenTableProofs
+import SeqVerif.Model.C03DocsCache
 import SeqVerif.Extracted.C03
 /-!
 # C03 - answers do not depend on the fraction form (active = sealed = reloaded = any cache)
@@ -302,6 +303,21 @@ example : ∃ w, writeSortedDocs (fun _ p => p.length + 33) 5 (fun id => if id =
     [(18446744073709551615, 18446744073709551615), (9, 1), (7, 2)] = some w ∧ w.blockOffsets = [0, 39] ∧
     (lookupPos w.positions (7, 2)).bind (readAt w.blockOffsets w.file) = some [99] := ⟨_, rfl, by decide, by decide⟩
 
+/-- **the doc-block cache is transparent for docs files below 4 GiB**: the key `uint32(blockOffset)` is injective
+on offsets < 2^32, hence any sequence of `ReadDocsFunc` block look-ups on one reader (cold, warm, any order,
+repetitions, any cache content built that way) returns for every block offset the block stored there.
+ASSUMPTION made explicit: a docs file stays below 4 GiB (default `--frac-size` is 128 MB and a fraction is rotated when
+it exceeds it; the flag accepts larger values - see `c03_docs_cache_key_collides_beyond_4GiB`). -/
+theorem c03_docs_cache_transparent {α} (load : Nat → α) (offs : List Nat) (cache : List (Nat × α))
+    (hc : CacheOK docsCacheKey load (· < 4294967296) cache) (hd : ∀ o, o ∈ offs → o < 4294967296) :
+    readSeq docsCacheKey load cache offs = offs.map load :=
+  readSeq_spec docsCacheKey load (· < 4294967296) (fun a b ha hb h => docsCacheKey_injective a b ha hb h) offs cache hc hd
+
+/-- beyond 4 GiB the truncated key collides: two different block offsets, one key (with a configured fraction size
+above 4 GiB the second block would be answered from the first one's cache entry) -/
+theorem c03_docs_cache_key_collides_beyond_4GiB :
+    docsCacheKey (4294967296 + 64) = docsCacheKey 64 ∧ (4294967296 + 64 ≠ 64) := docsCacheKey_collides
+
 /-! ## Obligations on facts re-extracted from /repo on every run -/
 
 open SV.Extracted.C03
@@ -367,5 +383,8 @@ theorem c03_x_lid_generator_owns_buffer :
     lidGenReassignArgs = ["blockLIDs"] ∧
     lidGenBufferAssigns = ["make([]uint32, 0, maxBlockSize)", "blockLIDs[:0]", "append(blockLIDs, tokenLIDs[:right]...)"] := by
   decide
+
+/-- the doc-block cache key in the source is the whole block offset truncated to uint32 (`docsCacheKey`) -/
+theorem c03_x_docs_cache_key : docsCacheKeyExpr = ["uint32(blockOffset)"] := by decide
 
 end SV.Props.C03
